@@ -25,7 +25,9 @@ func recvMsg() *packettypes.MsgRecvPacket {
 // VerifC03RecvOutcome: on the destination, a receive ends in exactly one of
 //   delivered  - the callback ran once, its effects are committed once, the ack carries the contract's result
 //   refunded   - an error acknowledgement, and then NO effect of the callback is left committed
-func VerifC03RecvOutcome() {
+func VerifC03RecvOutcome() { recvOutcome() }
+
+func recvOutcome() {
 	w := newXWorld(2 + rt.Tier())
 	msg := recvMsg()
 	var p packettypes.Packet
